@@ -27,6 +27,7 @@ class Ctx:
         self.specs = {}  # name -> SpecDef
         self.consts = {}  # name -> sort  (declared constants)
         self._ufuncs = []
+        self.axiom_keys = {}
 
     # ---- declarations
     def declare_sort(self, name):
@@ -60,8 +61,11 @@ class Ctx:
         self.macros[name] = (params, ressort, body)
         self.funcs[name] = ([s for _, s in params], ressort)
 
-    def add_axiom(self, name, term):
+    def add_axiom(self, name, term, keys=None):
+        """keys: the axiom is only emitted into VCs that mention one of these symbols (relevance filter)."""
         self.axioms.append((name, term))
+        if keys:
+            self.axiom_keys[name] = list(keys)
 
     def fresh_const(self, base, sort):
         name = smt.fresh_name(base)
@@ -168,7 +172,24 @@ class Ctx:
     def vc_text(self, hyps, goal, defs="both", fuel=2, get_values=(), extra_axioms=True, nl="exact"):
         """SMT-LIB text whose unsatisfiability proves  /\\ hyps => goal."""
         body_terms = list(hyps) + [goal]
-        ax_terms = [t for _, t in self.axioms] if extra_axioms else []
+        axioms = list(self.axioms) if extra_axioms else []
+        if self.axiom_keys:
+            # relevance filter (dropping an axiom is always sound): keyed axioms need one of their symbols in the VC
+            symbols = set()
+            for t in body_terms:
+                for x, _ in smt.subterms(t):
+                    symbols.add(x.op)
+            for _ in range(3):
+                kept = [(n, t) for n, t in axioms if n not in self.axiom_keys or any(k in symbols for k in self.axiom_keys[n])]
+                before = len(symbols)
+                for n, t in kept:
+                    if n in self.axiom_keys:
+                        for x, _ in smt.subterms(t):
+                            symbols.add(x.op)
+                if len(symbols) == before:
+                    break
+            axioms = kept
+        ax_terms = [t for _, t in axioms]
         inst = []
         if defs in ("ground", "both"):
             inst = self.spec_instances(body_terms + ax_terms, fuel=fuel)
@@ -179,7 +200,7 @@ class Ctx:
         for t in body_terms + ax_terms + inst + quant + list(get_values):
             used.update(smt.free_consts(t))
         lines = self.preamble(used, nl=nl)
-        for name, t in self.axioms if extra_axioms else []:
+        for name, t in axioms:
             lines.append(f"; axiom {name}")
             lines.append(f"(assert {t})")
         for t in quant:
